@@ -346,6 +346,20 @@ def _f_geo():
     return {"lat": lat, "lon": lon, "time_seq": tseq, "adjacency": A, "space_seq": sp}
 
 
+def _f_data_helpers():
+    """Static array helpers of Data: none of them is documented to work in place."""
+    from pyunicorn.core import Data
+    out = {}
+    for vt in ("float64", "float32", "int32", "int16", "uint8"):
+        a = V(np.array(families._data(4, 6)))
+        Data.rescale(a, vt)
+        out["rescale_" + vt] = a
+    b = V(np.array(families._data(3, 6)))
+    Data.zero_pad_data(b), Data.cos_window(b, 0.25), Data.next_power_2(6)
+    out["array"] = b
+    return out
+
+
 def _f_geogrid():
     """Queries of GeoGrid / Grid that take caller arrays: a polygon, a longitude sequence, rectangular axes."""
     from pyunicorn.core import GeoGrid, Grid
@@ -420,7 +434,7 @@ def _f_data_views():
 
 FUNCS = {"data_views": _f_data_views, "rejection_sampling": _f_rejection, "embed": _f_embed, "rp_metrics": _f_rp_metrics,
          "coupling": _f_coupling, "eventseries": _f_eventseries,
-         "visibility_inputs": _f_visibility, "geo": _f_geo, "geogrid": _f_geogrid, "interacting_inputs": _f_interacting,
+         "visibility_inputs": _f_visibility, "geo": _f_geo, "geogrid": _f_geogrid, "data_helpers": _f_data_helpers, "interacting_inputs": _f_interacting,
          "network_ops": _f_network_ops}
 
 
